@@ -302,14 +302,19 @@ LAY_SLOW = {"V_SB", "X_V8L16", "STR16", "X_U16"}
 MOBL = ["ceil_mul", "ceil_mul_any_m", "floor_mul", "max", "min", "PosIter_next", "SingleType_min_size", "TwoOrMore_min_size", "TwoOrMore_align",
         "FlatVec_DATA_OFFSET", "FlatVec_ALIGN", "FlatVec_ptr_from_bytes", "FlatVec_bytes_roundtrip", "FlatVec_size",
         "FlatString_ptr_from_bytes", "FlexVec_ptr_from_bytes"]
+# macro-generated constants of generic #[flat] definitions (crate /verif/mgen)
+MOBL_GEN = ["GS3_LAST_FIELD_OFFSET", "GS3_ALIGN", "GS3_MIN_SIZE", "GS3_ptr_from_bytes", "GS2_LAST_FIELD_OFFSET", "GS2_ptr_from_bytes",
+            "GE_ALIGN", "GE_DATA_OFFSET", "GE_DATA_MIN_SIZES", "GE_MIN_SIZE", "GE_ptr_from_bytes"]
+MOBL_GEN_SLOW = {"GS3_MIN_SIZE", "GS3_ptr_from_bytes", "GS2_ptr_from_bytes", "GE_MIN_SIZE", "GE_ptr_from_bytes"}
 prop("C04", "computed layout equals the compiler's layout and the C rule",
      "ALIGN, MIN_SIZE and SIZE of every catalogue shape are compared with literals obtained by applying the C layout rule by hand; for every slice length up to the bound the mapped value's align_of_val is ALIGN, size_of_val <= slice length (never claims more bytes), as_bytes == size_of_val. Every field / payload / element offset is pinned by the accept family: content read through the accessors equals content decoded at the reference offsets for all byte strings; the emplace family pins the offsets used by the *Init emplacers the same way.",
-     ["macro-generated constants (DATA_OFFSET, DATA_MIN_SIZES, LAST_FIELD_OFFSET, MIN_SIZE of #[flat] types) are decided on the 42 concrete shapes only; engine M covers the generic building blocks they are made of (ceil_mul/floor_mul/max/min, PosIter::next, TypeIter::min_size/align, FlatVec/FlatString/FlexVec pointer metadata) for symbolic SIZE <= 65536, ALIGN in {1,2,4,8,16}, lengths <= 2^48",
+     ["engine M: generic definitions of the shapes struct{A,FlatVec<C,L>}, struct{A,B,FlatVec<C,L>}, enum{V0,V1(A),V2{A,B},V3(B,FlatVec<C,L>)} with a u8 tag, for symbolic SIZE <= 65536, ALIGN in {1,2,4,8}, lengths <= 2^48; other arities, tag widths and tail kinds are decided on the concrete catalogue shapes only",
+      "the alignment of the generated AlignAs struct is axiomatised as the maximum over its field list (read from the MIR) - that rustc lays out repr(C) this way is trusted and cross-checked by the layout harnesses on concrete shapes",
       "slices longer than the per-shape bound", "alignments above 4"],
      [H("lay::%s_l::layout_sized" % sh, 120, 4, SHAPE_DOC.get(sh, sh), "SIZE == size_of, ALIGN == align_of == reference (constants evaluated by rustc; recorded, not solver-decided)") for sh in LAYS]
      + [H("lay::%s_l::layout" % sh, 900 if sh in LAY_SLOW else 400, 8, "every slice length <= %d and content; %s" % (RO_BOUND[sh], SHAPE_DOC[sh]),
           "ALIGN/MIN_SIZE == reference; align_of_val == ALIGN; size_of_val <= n", tier="thorough" if sh in LAY_SLOW else "quick") for sh in LAY]
-     + [M(n) for n in MOBL]
+     + [M(n) for n in MOBL] + [M(n, tier="thorough" if n in MOBL_GEN_SLOW else "quick") for n in MOBL_GEN]
      + ro("accept", "offsets of fields / enum payloads / container data: accessor content == content at the reference offsets", shapes_quick=["U_S1", "U_S6", "U_E1", "U_E3", "S_SE1", "V_A3"], shapes_thorough=["U_S2", "U_E4", "X_U16"])
      + em("emplace", "offsets used by the generated initialisers == reference offsets", quick=["U_S6", "U_E1"], thorough=["U_S1", "U_E3"]))
 
